@@ -33,13 +33,13 @@ def run_one(t):
     try:
         if ctx.put_rec.ret is not True or ctx.put_rec.exc is not None:
             w.violate("C02.put_accepted", f"ret={ctx.put_rec.ret} exc={ctx.put_rec.exc!r}", "")
-        judge(w, ctx.reason)
+        judge(w, ctx.reason, ctx.info.get("base_ind", 0), ctx.info.get("base_fault", 0))
         return from_world(w, ctx.pop, ctx.nontrivial)
     finally:
         w.close()
 
 
-def judge(w: World, reason: str) -> None:
+def judge(w: World, reason: str, base_ind: int = 0, base_fault: int = 0) -> None:
     cfg = w.cfg
     tag = f"mode={cfg.mode.name[:5]} closure={cfg.closure} md_only={cfg.metadata_only} empty={cfg.size == 0}"
     if reason != "quiet":
@@ -52,11 +52,13 @@ def judge(w: World, reason: str) -> None:
     elif w.lib_excs:
         w.violate("C02.no_exception", "lib:" + ",".join(sorted(w.lib_excs)), tag)
     # indications / faults
-    fin_a = [i for i in w.ind_log if i[0] == "a" and i[1][0] == "finished"]
-    fin_b = [i for i in w.ind_log if i[0] == "b" and i[1][0] == "finished"]
-    if w.fault_log:
-        f = w.fault_log[0]
-        w.violate("C02.no_fault_callback", f"{f[0]}:{f[1][0]} cond={f[1][2]} {tag}", str(w.fault_log[:3]))
+    ind_log = w.ind_log[base_ind:]
+    fault_log = w.fault_log[base_fault:]
+    fin_a = [i for i in ind_log if i[0] == "a" and i[1][0] == "finished"]
+    fin_b = [i for i in ind_log if i[0] == "b" and i[1][0] == "finished"]
+    if fault_log:
+        f = fault_log[0]
+        w.violate("C02.no_fault_callback", f"{f[0]}:{f[1][0]} cond={f[1][2]} {tag}", str(fault_log[:3]))
     if cfg.ind_a & 8:
         if len(fin_a) != 1:
             w.violate("C02.one_finished_sender", f"n={len(fin_a)} {tag}", "")
